@@ -415,6 +415,12 @@ func init() {
 			"slot contents are read through the verif export hook (voteSet.msgs), not recomputed from goloop's counters",
 			"signatures are not checked by voteSet.add (they are real anyway)",
 		},
+		TimeoutSec: func(t string) int {
+			if t == ev.Thorough {
+				return 3600
+			}
+			return 900
+		},
 		Run: run,
 	})
 }
